@@ -165,6 +165,50 @@ fn main() {
         let (k, v) = ls::REGION_ONLY[i];
         probe(&mut t, "REGION_ONLY", i, (None, None, Some(k)), v);
     }
+    // the direction tables: every script they list decides the direction on its own, every
+    // right-to-left language is at least not left-to-right by default (what `contains()` on the
+    // stored integers must give on this machine too)
+    {
+        use unic_langid_impl::verif_tables as lt;
+        use unic_langid_impl::{CharacterDirection, LanguageIdentifier};
+        let mut dir_probe = |table: &str, idx: usize, script: u32, want: CharacterDirection| {
+            let Some(text) = unpack(script as u64) else { return };
+            let Ok(sc) = Script::from_bytes(text.as_bytes()) else { return };
+            t.looked_up += 1;
+            let li = LanguageIdentifier::from_parts(Language::default(), Some(sc), None, &[]);
+            let got = li.character_direction();
+            if got != want {
+                t.wrong += 1;
+                if t.wrong <= 12 {
+                    println!("BE-MISMATCH {}[{}] script={} direction={:?} table-says={:?}", table, idx, text, got, want);
+                }
+            }
+        };
+        for (i, s) in lt::SCRIPTS_CHARACTER_DIRECTION_LTR.iter().enumerate() {
+            dir_probe("SCRIPTS_CHARACTER_DIRECTION_LTR", i, *s, CharacterDirection::LTR);
+        }
+        for (i, s) in lt::SCRIPTS_CHARACTER_DIRECTION_RTL.iter().enumerate() {
+            dir_probe("SCRIPTS_CHARACTER_DIRECTION_RTL", i, *s, CharacterDirection::RTL);
+        }
+        for (i, s) in lt::SCRIPTS_CHARACTER_DIRECTION_TTB.iter().enumerate() {
+            dir_probe("SCRIPTS_CHARACTER_DIRECTION_TTB", i, *s, CharacterDirection::TTB);
+        }
+        for (i, l) in lt::LANGS_CHARACTER_DIRECTION_RTL.iter().enumerate() {
+            let Some(text) = unpack(*l) else { continue };
+            let Ok(lang) = Language::from_bytes(text.as_bytes()) else { continue };
+            // with an explicit right-to-left script the answer must be RTL whatever the language
+            // default resolves to
+            let Some(rtl) = lt::SCRIPTS_CHARACTER_DIRECTION_RTL.first().and_then(|s| unpack(*s as u64)).and_then(|s| Script::from_bytes(s.as_bytes()).ok()) else { continue };
+            t.looked_up += 1;
+            let li = LanguageIdentifier::from_parts(lang, Some(rtl), None, &[]);
+            if li.character_direction() != CharacterDirection::RTL {
+                t.wrong += 1;
+                if t.wrong <= 12 {
+                    println!("BE-MISMATCH LANGS_CHARACTER_DIRECTION_RTL[{}] lang={} with an RTL script is {:?}", i, text, li.character_direction());
+                }
+            }
+        }
+    }
     println!(
         "BE-ROWS looked_up={} wrong={} endian={} width={}",
         t.looked_up,
